@@ -37,14 +37,18 @@ RULE = ("histories of 1-3 runs on one Spinner over one virtual reactor; each run
         "already-fired Deferred, Deferred firing/failing at t in {<,=,>} timeout, never) x 0-3 extra delayed calls x "
         "0-2 selectables x stop request (none / synchronous / at an instant <,=,> the others) x re-entrant call x "
         "(through the same or another Spinner on the same reactor) x handler installed by the function x "
-        "pre-installed handlers x clear_junk or not x tie-break oracle x reactor running one call or one instant "
+        "pre-installed handler per signal (SIG_DFL, SIG_IGN, default_int_handler, callables, getsignal()=None) x "
+        "reactor.stop before the call (stock / instance-level override installed before the first run or between "
+        "runs / override removed) x clear_junk or not x tie-break oracle x reactor running one call or one instant "
         "per iteration; "
         "non-trivial = an asynchronous shape with a competing stop request or tie, or a history of >= 2 runs; "
         "distinct = distinct JSON")
 TRUSTED = ["PARTIAL: the reactor, Twisted's Deferred and real signal delivery are modelled, not verified "
            "(harness/vcheck/vreactor.py is a deterministic stand-in for the reactor with the documented interface; "
            "it is validated against the real reactor only by the extra_checks sample)",
-           "signal.signal/getsignal of CPython are used as they are"]
+           "signal.signal/getsignal of CPython are used as they are; the state 'getsignal() returns None' (a handler "
+           "not installed from Python) cannot be produced from Python and is supplied by a thin layer in the driver "
+           "(_Signals) that Spinner and the virtual reactor see as their signal module"]
 ASSUMPTIONS = ["the reactor runs either one delayed call per iteration (crash() takes effect immediately) or, like "
                "the real reactor, every call due at the same instant in one iteration; simultaneous calls are "
                "ordered by an explicit oracle; the theorems quantify over both modes and all oracles",
@@ -80,7 +84,42 @@ def _handlers():
     return {0: signal.SIG_DFL, 1: signal.SIG_IGN, 2: signal.default_int_handler, 3: _h3, 4: _h4, 8: _h8}
 
 
+H_NONE = 5     # the disposition signal.getsignal() reports as None (a handler not installed from Python)
+
+
+class _Signals:
+    """The signal module as Spinner and the reactor see it, with one addition: a signal can be put into the state
+    CPython is in when a handler was installed by non-Python code (getsignal() -> None; that state cannot be produced
+    from Python itself, hence this thin layer).  Everything else goes to the real signal module: getsignal/signal of
+    CPython are used as they are, signal(sig, None) raises CPython's own TypeError, installing any handler ends the
+    state."""
+
+    def __init__(self, real):
+        self._real = real
+        self.native = set()
+        for k in dir(real):
+            if not k.startswith("__") and k not in ("signal", "getsignal"):
+                setattr(self, k, getattr(real, k))
+
+    def getsignal(self, s):
+        return None if s in self.native else self._real.getsignal(s)
+
+    def signal(self, s, h):
+        if h is None:
+            return self._real.signal(s, h)          # TypeError, as in CPython
+        old = self.getsignal(s)
+        self._real.signal(s, h)
+        self.native.discard(s)
+        return old
+
+    def make_native(self, s):
+        self._real.signal(s, self._real.SIG_DFL)
+        self.native.add(s)
+
+
 def _handler_id(h, reactor):
+    if h is None:
+        return H_NONE
     for k, v in _handlers().items():
         if h is v or h == v:
             return k
@@ -93,8 +132,12 @@ def _handler_id(h, reactor):
 def drive(case):
     from twisted.internet import defer
     from testtools.twistedsupport import _spinner
+    from vcheck import vreactor as vreactor_mod
     from vcheck.vreactor import VReactor, Hang
 
+    sigmod = _Signals(signal)
+    patched = (_spinner.signal, vreactor_mod.signal)
+    _spinner.signal = vreactor_mod.signal = sigmod
     sigs = [getattr(signal, n) for n in SIGNAMES]
     saved = [signal.getsignal(s) for s in sigs]
     # cases must not see each other: not_reentrant keeps a process-global table of "inside a call" flags (its
@@ -110,6 +153,23 @@ def drive(case):
     try:
         reactor = VReactor(case["oracle"], batch=case.get("batch", False))
         orig_stop = reactor.stop
+
+        def _override(k):
+            # an instance-level override of reactor.stop (a shutdown hook / logging wrapper): goes on to the stock stop
+            def stop_override(*a, **kw):
+                return orig_stop(*a, **kw)
+            stop_override.k = k
+            return stop_override
+        overrides = {k: _override(k) for k in (1, 2, 3)}
+
+        def stop_id():
+            cur = reactor.stop
+            if cur == orig_stop:
+                return 0
+            for k, v in overrides.items():
+                if cur is v:
+                    return k
+            return 99
         spinner = _spinner.Spinner(reactor)
         out = []
         toks = {}              # id(object) -> token, for everything the functions leave with the reactor
@@ -118,7 +178,15 @@ def drive(case):
             if run["clear"]:
                 spinner.clear_junk()
             for s, h in zip(sigs, run["pre"]):
-                signal.signal(s, _handlers()[h])
+                if h == H_NONE:
+                    sigmod.make_native(s)
+                else:
+                    sigmod.signal(s, _handlers()[h])
+            if run.get("rstop") is not None:
+                if run["rstop"] == 0:
+                    reactor.__dict__.pop("stop", None)        # the stock method shows again
+                else:
+                    reactor.stop = overrides[run["rstop"]]
             ran = []
             reentry = [None]
             order_from = len(reactor.order)
@@ -137,7 +205,7 @@ def drive(case):
                 if run["stop"] is not None:
                     mark(reactor.callLater(run["stop"], lambda: (ran.append(2), reactor.stop())), 2)
                 if run["setsig"] is not None:
-                    signal.signal(sigs[run["setsig"][0]], _handlers()[run["setsig"][1]])
+                    sigmod.signal(sigs[run["setsig"][0]], _handlers()[run["setsig"][1]])
                 if run["reenter"]:
                     # through the same Spinner, or through ANOTHER Spinner on the same reactor
                     inner = _spinner.Spinner(reactor) if run.get("other") else spinner
@@ -145,8 +213,8 @@ def drive(case):
 
                     def snap():
                         return (len(reactor.getDelayedCalls()), len(reactor.getReaders()), list(spinner.get_junk()),
-                                list(inner.get_junk()), [signal.getsignal(s) for s in sigs], reactor.running,
-                                reactor.stop)
+                                list(inner.get_junk()), [sigmod.getsignal(s) for s in sigs], reactor.running,
+                                reactor.stop, reactor.really_stopped)
                     before = snap()
                     try:
                         inner.run(5, lambda: nested_ran.append(1) or 7)
@@ -193,6 +261,8 @@ def drive(case):
                 res = ["raised", "stalejunk"]
             except Hang:
                 res = ["raised", "other"]
+            except TypeError:                 # e.g. signal.signal(sig, None) out of run()'s finally
+                res = ["raised", "other"]
             except Exception as e:
                 res = ["raised", excs.index(type(e))] if type(e) in excs else ["raised", "other"]
             o = {"res": res, "reentry": reentry[0], "ran": sorted(ran),
@@ -200,11 +270,12 @@ def drive(case):
                  "junk": sorted(toks.get(id(x), 0) for x in spinner.get_junk()),
                  "running": bool(reactor.running), "pending": len(reactor.getDelayedCalls()),
                  "readers": len(reactor.getReaders()),
-                 "stop_ok": bool(reactor.stop == orig_stop and not reactor.really_stopped),
-                 "sigs": [_handler_id(signal.getsignal(s), reactor) for s in sigs]}
+                 "stop": stop_id(), "stopped": bool(reactor.really_stopped),
+                 "sigs": [_handler_id(sigmod.getsignal(s), reactor) for s in sigs]}
             out.append(o)
         return out
     finally:
+        _spinner.signal, vreactor_mod.signal = patched
         for s, h in zip(sigs, saved):
             signal.signal(s, h if h is not None else signal.SIG_DFL)
 
@@ -227,8 +298,9 @@ def t_run(r):
         t_shape(r["shape"]), q.lst([q.nat(d) for d in r["extras"]]), q.nat(r["sels"]),
         q.option(r["stop"], q.nat), q.boolean(r["stop_now"]), q.boolean(r["reenter"]),
         q.option(r["setsig"], lambda p: q.pair("(nth %d reactor_signals 0)" % p[0], q.nat(p[1]))))
-    return "(mkRun %s %s %s %s %s)" % (q.boolean(r.get("other", False)), q.boolean(r["clear"]),
-                                      q.lst([q.nat(h) for h in r["pre"]]), q.nat(r["timeout"]), fn)
+    return "(mkRun %s %s %s %s %s %s)" % (q.boolean(r.get("other", False)), q.boolean(r["clear"]),
+                                         q.lst([q.nat(h) for h in r["pre"]]), q.option(r.get("rstop"), q.nat),
+                                         q.nat(r["timeout"]), fn)
 
 
 EXC = {"timeout": "ETimeout", "noresult": "ENoResult", "reentry": "EReentry", "stalejunk": "EStaleJunk",
@@ -244,10 +316,10 @@ def t_res(res):
 
 
 def t_obs(o):
-    return "(mkObs %s %s %s %s %s %s %s %s %s %s)" % (
+    return "(mkObs %s %s %s %s %s %s %s %s %s %s %s)" % (
         t_res(o["res"]), q.option(o["reentry"], q.boolean), q.lst([q.nat(x) for x in o["ran"]]),
         q.lst([q.nat(x) for x in o["order"]]), q.lst([q.nat(x) for x in o["junk"]]), q.boolean(o["running"]), q.nat(o["pending"]), q.nat(o["readers"]),
-        q.boolean(o["stop_ok"]), q.lst([q.nat(x) for x in o["sigs"]]))
+        q.nat(o["stop"]), q.boolean(o["stopped"]), q.lst([q.nat(x) for x in o["sigs"]]))
 
 
 def term(case, obs):
@@ -264,13 +336,17 @@ def perturb(case, obs):
 
 # ---------------- generation ----------------
 T = 5      # the timeout used by most cases
+# handlers that can be installed before a call, per signal: SIG_DFL, SIG_IGN, default_int_handler, two callables
+PRE_VALUES = [0, 1, 2, 3, 4]
+# ... and the disposition getsignal() reports as None (H_NONE; before 030b4f9 run() raised TypeError there, F24)
+NONE_HANDLERS = True
 
 
 def mkrun(shape, extras=(), sels=0, stop=None, stop_now=False, reenter=False, setsig=None, pre=(0, 0, 0),
-          clear=True, timeout=T, other=False):
+          clear=True, timeout=T, other=False, rstop=None):
     return {"clear": clear, "pre": list(pre), "timeout": timeout, "shape": list(shape), "extras": list(extras),
             "sels": sels, "stop": stop, "stop_now": stop_now, "reenter": reenter, "setsig": setsig,
-            "other": bool(other)}
+            "other": bool(other), "rstop": rstop}
 
 
 def shapes():
@@ -291,12 +367,14 @@ def rand_run(rng, simple=False):
         times += [sh[1], sh[1], max(0, sh[1] - 1), sh[1] + 1]
     extras = [rng.choice(times) for _ in range(rng.choice([0, 0, 1, 1, 2, 3]))]
     stop = rng.choice(times) if rng.random() < 0.4 else None
-    pre = [rng.choice([0, 1, 2, 3, 4]) for _ in range(3)] if rng.random() < 0.6 else [0, 0, 0]
+    pre = [rng.choice(PRE_VALUES) for _ in range(3)] if rng.random() < 0.6 else [0, 0, 0]
+    # who reactor.stop is before the call: mostly left as the previous run left it, else (re)installed / removed
+    rstop = rng.choice([None, None, None, 0, 1, 2, 3])
     if simple:
-        return mkrun(sh, extras, rng.choice([0, 0, 1]), stop, False, False, None, pre, True, timeout)
+        return mkrun(sh, extras, rng.choice([0, 0, 1]), stop, False, False, None, pre, True, timeout, rstop=rstop)
     return mkrun(sh, extras, rng.choice([0, 0, 0, 1, 2]), stop, rng.random() < 0.1, rng.random() < 0.2,
                  [rng.randrange(3), 8] if rng.random() < 0.15 else None, pre,
-                 rng.random() < 0.75, timeout, other=rng.random() < 0.5)
+                 rng.random() < 0.75, timeout, other=rng.random() < 0.5, rstop=rstop)
 
 
 def generate(rng, tier):
@@ -329,6 +407,35 @@ def generate(rng, tier):
         # a run that succeeds and leaves nothing must not make the next one (without clear_junk) be refused
         [mkrun(ok), mkrun(["later", 2, "ok", 5], clear=False), mkrun(err, clear=False), mkrun(ok, clear=False)],
     ]
+    # the process state run() must put back, for every initial value: reactor.stop overridden on the instance before
+    # the first run / between runs / removed again, on the success, exception, timeout, no-result and refusal paths
+    fixed += [
+        [mkrun(ok, rstop=1)],
+        [mkrun(err, rstop=2)],
+        [mkrun(never, rstop=3)],
+        [mkrun(never, stop=2, rstop=1, extras=[9])],
+        [mkrun(["later", 3, "ok", 5], rstop=1), mkrun(["later", 3, "err", 1]), mkrun(ok, rstop=0)],
+        [mkrun(ok), mkrun(err, rstop=2), mkrun(ok, rstop=3)],
+        [mkrun(never, extras=[9], rstop=1), mkrun(ok, clear=False, rstop=2), mkrun(ok)],
+        [mkrun(ok, reenter=True, rstop=2), mkrun(ok, reenter=True, other=True)],
+        [mkrun(["later", 2, "ok", 1], stop_now=True, rstop=3)],
+    ]
+    # ... and every kind of pre-installed handler for each of the three signals, on a returning and a raising path
+    for k in range(3):
+        for h in PRE_VALUES:
+            pre = [0, 0, 0]
+            pre[k] = h
+            fixed.append([mkrun(ok, pre=pre), mkrun(never, pre=pre, stop=1)])
+            fixed.append([mkrun(err, pre=pre, rstop=1)])
+    if NONE_HANDLERS:
+        for k in range(3):
+            pre = [2, 3, 0]
+            pre[k] = H_NONE
+            fixed.append([mkrun(ok, pre=pre, extras=[9])])
+            fixed.append([mkrun(ok, rstop=1), mkrun(err, pre=pre, setsig=[(k + 1) % 3, 8])])
+            fixed.append([mkrun(never, extras=[1], clear=True), mkrun(never, pre=pre, stop=1, clear=False)])
+        fixed.append([mkrun(["later", 2, "ok", 6], pre=[H_NONE, H_NONE, H_NONE], sels=1)])
+        fixed.append([mkrun(err, pre=[H_NONE, 1, 3]), mkrun(ok, pre=[4, H_NONE, 0], clear=False), mkrun(never, pre=[3, 1, H_NONE])])
     for runs in fixed:
         cases.append({"oracle": [], "batch": False, "runs": runs})
     cases.append({"oracle": [1], "batch": False, "runs": fixed[6]})
@@ -356,6 +463,9 @@ def generate(rng, tier):
     for _ in range(n_rand):
         n = rng.choice([1, 2, 2, 3, 3])
         runs = [rand_run(rng, simple=rng.random() < 0.3) for _ in range(n)]
+        for r in runs:
+            if NONE_HANDLERS and rng.random() < 0.04:
+                r["pre"][rng.randrange(3)] = H_NONE
         orc = [rng.randrange(4) for _ in range(rng.choice([0, 0, 1, 2, 4]))]
         cases.append({"oracle": orc, "batch": rng.random() < 0.4, "runs": runs})
     return cases
@@ -400,6 +510,8 @@ def shrink(case):
             yield rep(setsig=None)
         if r["pre"] != [0, 0, 0]:
             yield rep(pre=[0, 0, 0])
+        if r.get("rstop") is not None:
+            yield rep(rstop=None)
         if not r["clear"]:
             yield rep(clear=True)
         if r["shape"][0] == "later":
@@ -414,7 +526,8 @@ def distribution(cases):
          "batch_reactor": sum(1 for c in cases if c.get("batch")),
          "reentrant_through_other_spinner": sum(1 for c in cases for r in c["runs"] if r["reenter"] and r.get("other")),
          "with_extras": 0, "with_selectables": 0, "reentrant": 0, "stale_junk_not_cleared": 0,
-         "nondefault_handlers": 0}
+         "nondefault_handlers": 0, "stop_override_installed": 0, "stop_override_removed": 0,
+         "pre_handler_by_signal": {n: {} for n in SIGNAMES}}
     for c in cases:
         n = len(c["runs"])
         d["runs_per_history"][n] = d["runs_per_history"].get(n, 0) + 1
@@ -431,6 +544,10 @@ def distribution(cases):
             d["reentrant"] += r["reenter"]
             d["stale_junk_not_cleared"] += not r["clear"]
             d["nondefault_handlers"] += r["pre"] != [0, 0, 0]
+            d["stop_override_installed"] += bool(r.get("rstop"))
+            d["stop_override_removed"] += r.get("rstop") == 0
+            for n, h in zip(SIGNAMES, r["pre"]):
+                d["pre_handler_by_signal"][n][str(h)] = d["pre_handler_by_signal"][n].get(str(h), 0) + 1
     return d
 
 
@@ -442,14 +559,20 @@ from testtools.twistedsupport import _spinner
 cases = json.loads(sys.argv[1])
 out = []
 def h3(s, f): pass
-H = {0: signal.SIG_DFL, 2: signal.default_int_handler, 3: h3}
+H = {0: signal.SIG_DFL, 1: signal.SIG_IGN, 2: signal.default_int_handler, 3: h3}
 sigs = [signal.SIGINT, signal.SIGTERM, signal.SIGCHLD]
 spinner = _spinner.Spinner(reactor)
 orig_stop = reactor.stop
+def stop_override(*a, **kw):      # an instance-level override of reactor.stop installed before the call
+    return orig_stop(*a, **kw)
 for c in cases:
     spinner.clear_junk()
     for s, h in zip(sigs, c["pre"]):
         signal.signal(s, H[h])
+    reactor.__dict__.pop("stop", None)
+    if c.get("ovr"):
+        reactor.stop = stop_override
+    stop_before = reactor.stop
     before = [signal.getsignal(s) for s in sigs]
     keep = []
     def function(c=c):
@@ -471,7 +594,8 @@ for c in cases:
     except BaseException as e:
         res = ["raised", type(e).__name__]
     out.append({"res": res, "junk": len(spinner.get_junk()), "running": bool(reactor.running),
-                "pending": len(reactor.getDelayedCalls()), "stop_ok": reactor.stop == orig_stop,
+                "pending": len(reactor.getDelayedCalls()),
+                "stop_ok": (reactor.stop is stop_override) if c.get("ovr") else (reactor.stop == stop_before),
                 "sigs_ok": [signal.getsignal(s) for s in sigs] == before})
 print(json.dumps(out))
 '''
@@ -506,7 +630,10 @@ def extra_checks(tier, rng):
         stop = rng.random() < 0.25
         kill = (not stop) and rng.random() < 0.15
         cases.append({"shape": sh, "extras": rng.choice([0, 0, 1, 2]), "stop": stop, "kill": kill,
-                      "pre": [rng.choice([2, 3]), rng.choice([0, 3]), rng.choice([0, 3])]})
+                      "ovr": rng.random() < 0.4,
+                      # SIGINT at SIG_DFL only when no SIGINT is sent (it would end the process)
+                      "pre": [rng.choice([2, 3, 1] if kill else [2, 3, 1, 0]), rng.choice([0, 1, 3]),
+                              rng.choice([0, 1, 3])]})
     repo = os.environ.get("VERIF_REPO", "/repo")
     env = dict(os.environ, PYTHONPATH=repo)
     import json
